@@ -235,7 +235,15 @@ def run_case(case):
             g = near_sum(k, got)
             require(g >= c, "C12.missing-answer",
                     lambda: f"instance {INST[k[1]]} owes {c} answer(s) to {k[0]} due at t={k[2]:.6f}, {g} queued; finds: {[(round(f['t'], 6), f['mc'], f['src'], f['f'], [round(d[2], 6) for d in f['draws']]) for f in finds]}; runs {runs[k[1]]}")
-        # ---- on the wire: unicast answers carry TTL and options, leave within the collection timeout, go to the requester only
+        # ---- on the wire: unicast answers carry TTL and options, leave within the collection timeout, go to the requester only,
+        # and every queued answer is transmitted (exactly one offer per FindService entry reaches the requester)
+        wire_count = collections.Counter()
+        for e in sent_entries(prot.transport):
+            if e["type"] == wire.OFFER and e["ttl"] != 0 and e["dest"] != ("224.244.224.245", 30490):
+                wire_count[(e["dest"], (e["service"], e["instance"], e["major"]))] += 1
+        queue_count = collections.Counter((remote, INST[idx][:3]) for tq, remote, idx in queued if remote is not None)
+        require(wire_count == queue_count, "C12.answers-on-the-wire",
+                lambda: f"unicast offers queued per (requester, instance): {dict(queue_count)}; transmitted: {dict(wire_count)}")
         for e in sent_entries(prot.transport):
             if e["type"] != wire.OFFER or e["ttl"] == 0 or e["dest"] == ("224.244.224.245", 30490):
                 continue
